@@ -64,6 +64,14 @@ func (s *Source) release() {
 
 // KitDecrypt is v1.Decrypt on a Source, inside the exclusive section.
 func KitDecrypt(src *Source, opts v1.DecryptOptions) (io.Reader, error) {
+	return KitDecryptThen(src, opts, nil)
+}
+
+// KitDecryptThen is KitDecrypt with a caller action: after, when not nil, is
+// the first thing that runs on the calling goroutine once v1.Decrypt has
+// returned (e.g. a caller that wipes the key slice its unwrap function handed
+// out). Nothing that can block or yield lies between the return and after().
+func KitDecryptThen(src *Source, opts v1.DecryptOptions, after func()) (io.Reader, error) {
 	inner := opts.UnwrapKeyFn
 	var hdrReads int64 = -1
 	if inner != nil {
@@ -76,6 +84,9 @@ func KitDecrypt(src *Source, opts v1.DecryptOptions) (io.Reader, error) {
 	gate.Lock()
 	src.phase.Store(phHeader)
 	r, err := v1.Decrypt(src, opts)
+	if after != nil {
+		after()
+	}
 	if err == nil && r != nil {
 		src.phase.Store(phWait)
 		if hdrReads < 0 || src.entered.Load() > hdrReads {
